@@ -25,7 +25,8 @@ def main(argv):
     out = dict(messages=[], error=None, segment_errors=[])
     variant = argv[1] if len(argv) > 1 else 'default'
     kw = {'filter': dict(filter_expr='${%length} > 0 and ${%edition} >= 2'), 'continue': dict(continue_on_error=True),
-          'unwired': dict(wire_template_data=False), 'lookahead': dict(lookahead=True)}.get(variant, {})
+          'unwired': dict(wire_template_data=False), 'lookahead': dict(lookahead=True),
+          'compiling': dict(compiling=True)}.get(variant, {})
     for expect_refusal, stream in segments:
         if expect_refusal:
             try:
@@ -50,9 +51,10 @@ def main(argv):
 def scan(out, stream, kw):
     from pybufrkit.decoder import Decoder, generate_bufr_message
     lookahead = kw.pop('lookahead', False)
+    deckw = dict(compiled_template_cache_max=8) if kw.pop('compiling', False) else {}
     pos = 0
     try:
-        for m in generate_bufr_message(Decoder(), stream, **kw):
+        for m in generate_bufr_message(Decoder(**deckw), stream, **kw):
             td = m.template_data.value
             out['messages'].append(dict(
                 data_category=m.data_category.value,
